@@ -99,6 +99,14 @@ def as_payload(ctx: Ctx, v) -> SymBytes:
 def payload_cat(ctx: Ctx, a: SymBytes, b: SymBytes) -> SymBytes:
     t = bcat(a.t, b.t)
     n = z3.simplify(a.n + b.n)
+    # associativity, instantiated on the terms at hand
+    for inner, left in ((a.t, True), (b.t, False)):
+        if z3.is_app(inner) and inner.decl().name() == "bcat" and inner.num_args() == 2:
+            x, y = inner.arg(0), inner.arg(1)
+            if left:   # cat(cat(x, y), b) == cat(x, cat(y, b))
+                ctx.assume(t == bcat(x, bcat(y, b.t)))
+            else:      # cat(a, cat(x, y)) == cat(cat(a, x), y)
+                ctx.assume(t == bcat(bcat(a.t, x), y))
     ctx.assume(blen(t) == n)
     ctx.assume(z3.Implies(a.n == 0, t == b.t))
     ctx.assume(z3.Implies(b.n == 0, t == a.t))
